@@ -33,6 +33,6 @@ for arg in sys.argv[1:]:
         "checks_that_report_it": caught,
         "first_reports": [l[:400] for l in out.splitlines() if l.startswith(('REFUTED', 'UNDECIDED'))][:4],
     }
-    meta["round"] = 2 if "-r2" in sid else 1
+    meta["round"] = 3 if "-r3" in sid else 2 if "-r2" in sid else 1
     json.dump(meta, open(f"{dst}/meta.json", "w"), indent=1, ensure_ascii=False)
     print(sid, 'own=', meta['own_property_check_reports_it'], 'caught_by=', caught, 'demo', meta['demo_exit_on_clean_copy'], meta['demo_exit_on_patched_copy'], 'suite', meta['pinned_suite_same_as_baseline'])
